@@ -16,6 +16,10 @@ class Unsupported(Exception):
 TOK = re.compile(r"\s*(?:(//[^\n]*)|(\d[\d_]*(?:[iu](?:8|16|32|64|size))?)|([A-Za-z_][A-Za-z_0-9]*)|(&&|\|\||==|!=|<=|>=|->|::|\+=|-=|[-+*/%!<>(){},;:.=&]))")
 
 UNSIGNED = {"u8", "u16", "u32", "u64", "usize"}
+# the named constants of f64 / f32, as constructors of `Gen.FConst` (floats are not modelled; which constant a running minimum or
+# maximum starts from is)
+FLOAT_CONSTS = {"MAX": "FConst.posMax", "MIN": "FConst.negMax", "MIN_POSITIVE": "FConst.minPositive", "NAN": "FConst.nan",
+                "INFINITY": "FConst.posInf", "NEG_INFINITY": "FConst.negInf", "EPSILON": "FConst.epsilon"}
 SIGNED = {"i8", "i16", "i32", "i64", "isize"}
 
 
@@ -224,7 +228,9 @@ class P:
                 b = self.expr()
                 self.eat("op", ")")
                 return ("call", last, [a, b])
-            if last == "from" and path[0] in UNSIGNED and self.at("("):
+            if path[0] in ("f64", "f32") and last in FLOAT_CONSTS and not self.at("("):
+                return ("fconst", FLOAT_CONSTS[last])
+            if last == "from" and (path[0] in UNSIGNED or path[0] in ("f64", "f32")) and self.at("("):
                 self.eat()
                 a = self.expr()
                 self.eat("op", ")")
@@ -252,7 +258,7 @@ class P:
         raise Unsupported(f"unexpected token {k} {v}")
 
 
-RESERVED = {"end", "from", "at", "then", "do", "fun", "let", "in", "open", "where", "with", "have", "show", "by"}
+RESERVED = {"end", "from", "at", "then", "do", "fun", "let", "in", "open", "where", "with", "have", "show", "by", "min", "max"}
 CMP = {"==": "=", "!=": "≠", "<": "<", "<=": "≤", ">": ">", ">=": "≥"}
 
 
@@ -261,6 +267,8 @@ def lean(e):
     if k == "int":
         return e[1]
     if k == "bool":
+        return e[1]
+    if k == "fconst":
         return e[1]
     if k == "var":
         return e[1] + "_" if e[1] in RESERVED else e[1]
@@ -442,6 +450,14 @@ def subst(e, name, repl):
         return repl if e[1] == name else e
     return tuple(subst(x, name, repl) if isinstance(x, tuple) else
                  ([subst(y, name, repl) for y in x] if isinstance(x, list) else x) for x in e)
+
+
+def field_expr(body, field, nth=0):
+    """the expression of the nth `field: <expr>,` of a struct literal in `body`"""
+    ms = list(re.finditer(r"(?<![.\w])" + re.escape(field) + r"\s*:\s*([^,{};]+),", body))
+    if len(ms) <= nth:
+        raise Unsupported(f"struct field {field} (#{nth}) not found")
+    return parse_expr(ms[nth].group(1))
 
 
 def typed_def(name, params, ret, e):
